@@ -18,6 +18,22 @@ CLAIMED = {
     ),
 }
 
+CLAIMED["C01"] = (
+    "Inductive step per AdArray overload and per AD library function: the real forward_mode/"
+    "functions code runs on AdArrays with arbitrary symbolic values and arbitrary symbolic "
+    "Jacobians; z3 decides, entry by entry, value = numpy expression and Jacobian = chain rule "
+    "with partial derivatives from an independent symbolic differentiator (elementary functions "
+    "as uninterpreted symbols with the textbook derivative table). Structural induction lifts the "
+    "step to all expression trees; bounded depth-2 composites from initAdArrays are checked too. "
+    "Path witnesses are replayed on the real float code with the true functions; counterexamples "
+    "are realised at a concrete point and confirmed against finite differences.",
+    "Floats as exact reals; smooth-domain assumptions per operation (listed in the evidence samples); "
+    "n<=3 values, m<=3 Jacobian columns; UF derivative table and sqrt definition are trusted; "
+    "heaviside/characteristic_function derivative defined as 0.",
+    "symbolic execution of AdArray/functions on z3 terms + independent symbolic differentiation + SMT",
+    "DESIGN.md section 6 C01",
+)
+
 NOT_APPLICABLE = {
     "C11": "MPFA local systems are inverted in LAPACK/numba kernels on data-dependent block structures; a symbolic inverse of the interaction-region blocks is beyond z3/cvc5 and with concrete matrices nothing quantified remains for a solver.",
     "C13": "MPSA: same obstacle as C11 with 2-3x larger local systems.",
